@@ -138,7 +138,7 @@ def cur():
 
 
 def active():
-    return _CUR is not None
+    return _CUR is not None and _CONCRETE is None
 
 
 # --------------------------------------------------------------------------------------
@@ -717,6 +717,8 @@ def concretize(x, cap=None):
     """Fork over the feasible values of a SymInt (only if provably few)."""
     if not isinstance(x, SymInt):
         return int(x)
+    if _CONCRETE is not None:
+        raise ConcreteMismatch("symbolic value in concrete mode")
     cap = cap or CONCRETIZE_CAP
     p = cur()
     t = z3.simplify(x.t)
@@ -756,7 +758,32 @@ def concretize(x, cap=None):
 
 # --------------------------------------------------------------------------------------
 # harness-facing API
+_CONCRETE = None  # {name: value}: concrete replay mode (plain Python values, no solver)
+
+
+class ConcreteMismatch(Exception):
+    """The concrete replay left the path of the model (an assumption evaluates to False)."""
+
+
+def concrete_run(fn, model):
+    """Run a harness function on plain Python values taken from a solver model.
+    Returns None if every prove() holds, else the failing label."""
+    global _CONCRETE
+    _CONCRETE = dict(model)
+    try:
+        fn()
+        return None
+    except ProofFailed as e:
+        return e.label
+    finally:
+        _CONCRETE = None
+
+
 def fresh_int(name=None, lo=None, hi=None):
+    if _CONCRETE is not None:
+        if name not in _CONCRETE:
+            raise ConcreteMismatch(f"model has no value for {name}")
+        return int(_CONCRETE[name])
     p = cur()
     if name is None:
         name = f"_v{next(p.fresh)}"
@@ -772,6 +799,10 @@ def fresh_int(name=None, lo=None, hi=None):
 
 
 def fresh_bool(name=None):
+    if _CONCRETE is not None:
+        if name not in _CONCRETE:
+            raise ConcreteMismatch(f"model has no value for {name}")
+        return bool(_CONCRETE[name])
     p = cur()
     if name is None:
         name = f"_b{next(p.fresh)}"
@@ -790,6 +821,10 @@ def fresh_real(name=None):
 
 
 def assume(c):
+    if _CONCRETE is not None:
+        if not c:
+            raise ConcreteMismatch("assumption false under the model")
+        return
     p = cur()
     if isinstance(c, SymBool):
         t = z3.simplify(c.t)
@@ -817,6 +852,10 @@ def feasible(c):
 
 def prove(c, label, extra=None):
     """Discharge pc ⇒ c.  unsat(pc ∧ ¬c) = holds on this path."""
+    if _CONCRETE is not None:
+        if not c:
+            raise ProofFailed(label, dict(_CONCRETE), extra)
+        return
     p = cur()
     p.stats.proved += 1
     if not isinstance(c, SymBool):
